@@ -55,6 +55,7 @@ impl Live {
                 queues,
                 anchors: anchors(),
                 steps: Vec::new(),
+                expect: None,
             },
             log: Some(log),
             _dir: dir,
